@@ -154,7 +154,7 @@ func (ck *Checker) replayPkg(scratch, pkgKey string, reqs []replayReq) {
 			inputs[j] = iv.Hex
 		}
 		rfile := map[string]interface{}{"harness": fn, "params": rq.st.in.Params, "inputs": inputs, "property": rq.st.in.Property, "instance": rq.st.in.Name,
-			"violation": map[string]string{"kind": rq.v.Kind, "key": rq.v.Key, "site": rq.v.Site, "msg": rq.v.Msg}, "stubs": rq.v.Stubs, "clock": rq.v.Clock, "randints": rq.v.RandInts, "stub_sets": rq.st.in.Stubs,
+			"violation": map[string]string{"kind": rq.v.Kind, "key": rq.v.Key, "site": rq.v.Site, "msg": rq.v.Msg}, "stubs": rq.v.Stubs, "clock": rq.v.Clock, "randints": rq.v.RandInts, "schedule": rq.v.Schedule, "endpoints": rq.v.Endpoints, "stub_sets": rq.st.in.Stubs,
 			"how_to_replay": "gosym builds the package with the harness overlay (go test -c -overlay) and runs TestZZReplay with ZZVERIF_REPLAY=<this file>"}
 		b, _ := json.MarshalIndent(rfile, "", " ")
 		dir := filepath.Join("/verif/replays", rq.st.in.Property)
